@@ -97,16 +97,17 @@ func ActionFor(r int, rule gram.Rule, tags Tags, shape ActionShape) string {
 	}
 	lt := tags[rule.L]
 	if shape == PlainCopy {
+		// tick() burns fuel, so that reduction loops of cyclic grammars end
 		if len(rule.R) == 0 || lt == "" || tags[rule.R[0]] == "" {
-			return ""
+			return " tick() "
 		}
 		switch {
 		case lt == tags[rule.R[0]]:
-			return " $$ = $1 "
+			return " $$ = $1; tick() "
 		case lt == "s":
-			return " $$ = sn($1) "
+			return " $$ = sn($1); tick() "
 		}
-		return " $$ = ns($1) "
+		return " $$ = ns($1); tick() "
 	}
 	var args []string
 	for i, x := range rule.R {
@@ -248,6 +249,7 @@ func sn(x int) string               { return rt.SN(x) }
 func ns(s string) int               { return rt.NS(s) }
 func use(s string)                  {}
 func rec(r int)                     { rt.Rec(r) }
+func tick()                         { rt.Tick() }
 func Dump(nStates, nSyms int) [][]int {
 	out := make([][]int, nStates)
 	for s := 0; s < nStates; s++ {
@@ -356,6 +358,7 @@ function sn(x :number) :string { return RT.sn(x); }
 function ns(s :string) :number { return RT.ns(s); }
 function use(s :string) {}
 function rec(r :number) { RT.rec(r); }
+function tick() { RT.tick(); }
 RT.exportParser({
 	parse: function (input :string) { return Parser(input); },
 	init: function () { initialize(); },
